@@ -117,7 +117,7 @@ def interleavings(seqs):
             yield (s[0],) + tail
 
 
-def gen_exhaustive(n_senders, n_drains, variant, pre=True):
+def gen_exhaustive(n_senders, n_drains, variant, pre=True, blocks=()):
     """every order of {start_i, release_i} of n gated sender threads and n_drains drain calls
     (the box_message door: a parked sender holds an admission ticket and has not enqueued).
     variant: 'plain' | 'redrain' (sender 1 drains re-entrantly from box_message) |
@@ -127,6 +127,8 @@ def gen_exhaustive(n_senders, n_drains, variant, pre=True):
     seqs = [[("start", i), ("rel", i)] for i in range(n_senders)] + [[("drain",)]] * n_drains
     if variant == "late":
         seqs = seqs + [[("send",)]]
+    for bi, b in enumerate(blocks):
+        seqs = seqs + [[("block", bi)]]
     for order in interleavings(seqs):
         acts = []
         pid = 1
@@ -149,6 +151,8 @@ def gen_exhaustive(n_senders, n_drains, variant, pre=True):
                 acts.append(("rel", sender_pid[tok[1]]))
             elif tok[0] == "drain":
                 acts.append(("do", D))
+            elif tok[0] == "block":
+                acts.append(("do", blocks[tok[1]]))
             else:
                 acts.append(("do", S(pid)))
                 pid += 1
